@@ -284,9 +284,34 @@ def replay_hist(cfg, size, hist):
                 s.clear()
             elif op[0] == "resize":
                 s.resize(tuple(op[1]))
+            elif op[0] == "encoding":
+                # the application switches its output encoding on the live screen (and so does the terminal)
+                urwid.set_encoding(op[1])
+                s.cfg = (s.cfg[0], s.cfg[1], op[1])
+                s.term.codec = op[1]
     finally:
         s.stop()
     return v
+
+
+def encswitch_task(task, ctx: Ctx):
+    """draw under one encoding, switch the encoding, force a clear, draw under the other: the terminal shows the new canvas"""
+    cfg, size, tier = task
+    e1 = cfg[2]
+    e2 = "iso-8859-1" if e1 == "utf-8" else "utf-8"
+    env.reset(e1)
+    fa = frames_for(e1, size, tier, "pair")
+    env.reset(e2)
+    fb = frames_for(e2, size, tier, "pair")
+    sa = fa[:: max(1, len(fa) // 3)]
+    sb = fb[:: max(1, len(fb) // (24 if tier == "quick" else 80))]
+    for a in sa:
+        for b in sb:
+            ctx.count("evaluations")
+            env.reset(e1)
+            hist = [("draw", a[0], a[1]), ("encoding", e2), ("clear",), ("draw", b[0], b[1])]
+            run_hist(ctx, cfg, size, hist, "after-encoding-switch")
+    env.reset("utf-8")
 
 
 def single_task(task, ctx: Ctx):
@@ -510,6 +535,7 @@ def run(tier, R):
     n2 = int(R.ctx.counts["evaluations"]) - n1
     R.log(f"incremental draws: {n2}")
     R.run_tasks(triple_task, t3, recheck=0.05)
+    R.run_tasks(encswitch_task, [(cfg, sizes[0], tier) for cfg in configs(tier) if cfg[1]], recheck=0.05)
     n3 = int(R.ctx.counts["evaluations"]) - n1 - n2
     R.log(f"histories with clear/resize: {n3}")
     th = []
@@ -535,7 +561,7 @@ def run(tier, R):
         f"underline/standout, undefined name, AttrSpec objects with underline / standout / plain colours) at sizes {sizes}, cursor none / top-left / bottom-right; "
         f"20 configurations (depth 1/16/88/256/2^24 x back_color_erase x utf-8 / iso-8859-1); (a) every frame painted on a cleared screen with unknown contents, (b) every "
         "ordered pair of a frame subset (every k-th row + rows ending in attributed blanks / one-cell runs) drawn consecutively, (c) draw-clear-draw, draw-same-canvas-draw, "
-        "draw-resize-draw histories; each draw interpreted by mc/refs/vt_ref.py; HTML back-end on the single frames and on every 3-cell row over the characters HTML gives a meaning to (& < > \" ' ;), a wide character and a blank, with every cursor position (text equals the canvas text, each span is properly escaped, at most one cursor cell). non-trivial = distinct (configuration, history) that "
+        "draw-resize-draw histories, and draw / switch the output encoding / clear / draw; each draw interpreted by mc/refs/vt_ref.py; HTML back-end on the single frames and on every 3-cell row over the characters HTML gives a meaning to (& < > \" ' ;), a wide character and a blank, with every cursor position (text equals the canvas text, each span is properly escaped, at most one cursor cell). non-trivial = distinct (configuration, history) that "
         "painted correctly",
         "exhaustive": True,
         "parts": {"full_paints": n1, "incremental": n2, "clear_resize_histories": n3, "html": n4},
